@@ -19,6 +19,13 @@
 //!
 //! Regions are unions of convex contours, all counter-clockwise, tested with the NonZero rule.
 //! The band `delta` excused around the region's edges is rounding only.
+//!
+//! Tie families (model vs real code, bit level): `normal` (`compute_normal`), `stroke2` (whole mesh of
+//! a two-segment polyline against the component model `StrokeQuad.stroke2`), `fullmesh` (whole mesh -
+//! every emitted vertex position in order, every triangle id - of a polyline of the explored regime,
+//! 1..7 segments, open or closed, every join and cap, the four fixed-width entry points, against the
+//! COMPLETE stroker model `StrokeFull.tessellateFw`: the model the theorems `stroke_polyline_covers_rectangles`
+//! / `stroke_polyline_reach` of `Props/C06b.lean` are about).
 
 use lyon_path::math::{point, Point};
 use lyon_path::Path;
@@ -846,6 +853,64 @@ fn stroke2_case(ctx: &mut Ctx) {
     });
 }
 
+/// The whole mesh of a polyline of the explored regime (1..7 segments, open or closed, every join, every
+/// cap, the four fixed-width entry points) against the COMPLETE stroker model `StrokeFull.tessellateFw`
+/// (the model `Props/C06b.lean` proves coverage and reach about): vertex positions in emission order and
+/// triangle ids.
+fn fullmesh_case(ctx: &mut Ctx) {
+    ctx.case("fullmesh:32", |rng| {
+        let lattice = rng.chance(1, 3);
+        let w = pick_width(rng, lattice);
+        let poly = gen_poly(rng, w, lattice, 7);
+        let mut cfg = gen_cfg(rng, w, false);
+        cfg.entry = rng.below(4) as u8;
+        if rng.chance(2, 3) {
+            // the sub-regime of the theorems: Bevel / Miter, butt / square
+            cfg.join = *rng.pick(&[LineJoin::Miter, LineJoin::Bevel]);
+            cfg.cap1 = *rng.pick(&[LineCap::Butt, LineCap::Square]);
+            cfg.cap2 = *rng.pick(&[LineCap::Butt, LineCap::Square]);
+        }
+        let mut args = Out::new();
+        args.f(cfg.tol).f(cfg.w).f(cfg.ml).t(join_name(cfg.join)).t(cap_name(cfg.cap1)).t(cap_name(cfg.cap2));
+        args.u(if poly.closed { 1 } else { 0 }).u(poly.pts.len() as u64);
+        for p in poly.f32pts() {
+            args.p(p);
+        }
+        let tag = format!(
+            "fullmesh {} {} {}/{} {} segs={}",
+            poly.kind,
+            join_name(cfg.join),
+            cap_name(cfg.cap1),
+            cap_name(cfg.cap2),
+            ENTRY[cfg.entry as usize],
+            poly.segments().len()
+        );
+        (args, tag, move || {
+            let mut mesh = Mesh::new();
+            let res = run_stroke(&poly, &cfg, &mut mesh);
+            let mut o = Out::new();
+            let mut orc = Oracle::new();
+            match res {
+                Err(e) => {
+                    o.t("err").t(&e.replace(' ', "_"));
+                    orc.check(false, "stroke/success", "generic", || format!("tessellation error {}", e));
+                }
+                Ok(()) => {
+                    o.t("ok").u(mesh.vertices.len() as u64).u((mesh.indices.len() / 3) as u64).t("v");
+                    for p in &mesh.vertices {
+                        o.p(*p);
+                    }
+                    o.t("t");
+                    for i in &mesh.indices {
+                        o.u(*i as u64);
+                    }
+                }
+            }
+            CaseOut { imp: o, orcl: orc.verdict }
+        })
+    });
+}
+
 fn main() {
     let mut ctx = Ctx::from_args("C06");
     let n = ctx.n(250, 5000);
@@ -859,6 +924,7 @@ fn main() {
         for _ in 0..4 {
             stroke2_case(&mut ctx);
             normal_case(&mut ctx);
+            fullmesh_case(&mut ctx);
         }
     }
     ctx.finish();
